@@ -176,12 +176,13 @@ def replicat_writes_ref_reads(cfg_i, tree_i, chunking_i, conc, overlap=False):
         return True, ''
 
 
-def ref_writes_replicat_restores(cfg_i, tree_i, legacy, chunk_i, json_style=0):
+def ref_writes_replicat_restores(cfg_i, tree_i, legacy, chunk_i, json_style=0, mtime0=False):
     cfg = CFG[cfg_i]
     # (one name with non-ASCII characters: escaped or raw UTF-8 in the JSON depending on the writer's style)
     files = {(f'/orig/dir{i % 2}/f{i}.bin' if i != 1 else '/orig/dir1/f1-\u00e9\u4e2d.bin'): world.content(0, i, n) for i, n in enumerate(TREES[tree_i])}
     objs, key_json, expected = RF.write_repository(files, json_style=json_style, encrypted=cfg['encrypted'], cipher=cfg.get('cipher'), hashing=cfg.get('hashing'),
-                                                   legacy_metadata=bool(legacy), chunk=[5, 8, 3][chunk_i])
+                                                   legacy_metadata=bool(legacy), chunk=[5, 8, 3][chunk_i],
+                                                   **({'mtime_ns': 0} if mtime0 else {}))      # mtime0: the first file carries the epoch itself as its times
     with world.scratch('c14r') as d:
         be = rt.MemBackend(objs)
         repo = Repository(be, concurrent=2, cache_directory=None)
@@ -203,8 +204,16 @@ def ref_writes_replicat_restores(cfg_i, tree_i, legacy, chunk_i, json_style=0):
             r2 = Repository(be, concurrent=2, cache_directory=None)
             rt.MiniLoop().run_until_complete(r2.unlock(password=b'refpw', key=key_json))
             rt.MiniLoop().run_until_complete(r2.list_files(header=False))
-        if len([l for l in buf.getvalue().splitlines() if l.strip()]) != len(files):
+        rows = [[c.strip() for c in l.split('\t')] for l in buf.getvalue().splitlines() if l.strip()]
+        if len(rows) != len(files):
             return False, 'list_files on a reference-written repository lists a different number of files'
+        # the MTIME column shows the recorded modification time (UTC), for the modern and the pre-1.3 variant alike
+        import datetime as _dtm
+        for pth, (_, mt) in expected.items():
+            shown = _dtm.datetime.fromtimestamp(mt // 10 ** 9, tz=_dtm.timezone.utc).replace(tzinfo=None).isoformat(sep=' ')
+            row = [r for r in rows if pth in r]
+            if len(row) != 1 or shown not in row[0]:
+                return False, f'list_files shows {row[0] if row else None} for {pth}, recorded mtime {shown}'
         return True, ''
 
 
@@ -230,8 +239,9 @@ def e_read(k: int) -> bool:
     ci, ti, legacy, chi = digits(k, [6, 8, 2, 3])
     with NoTracing():
         style = (ci + ti + chi) % 2
-        ok, msg = ref_writes_replicat_restores(ci, ti, legacy, chi, style)
-        tick('e_read', [ci, ti, legacy, chi, style])
+        m0 = (ci + 2 * ti + chi) % 3 == 0
+        ok, msg = ref_writes_replicat_restores(ci, ti, legacy, chi, style, m0)
+        tick('e_read', [ci, ti, legacy, chi, style, m0])
         if not ok:
             _say(ci, TREES[ti], legacy, chi, msg)
         return ok
